@@ -356,6 +356,9 @@ Value Search::search(Position& position, Depth depth, Value alpha, Value beta,
     const bool ROOT_NODE = info->_ply == 0;
     const bool PV_NODE = beta != alpha + 1;
     const bool IS_NULL = (info - 1)->_current_move == NO_MOVE;
+    // a root searched over a `searchmoves` subset answers a different question than the position itself:
+    // its result must not be cached under the position's key (a later unrestricted `go` would reuse it)
+    const bool storeInTT = !(ROOT_NODE && limits.searchmovesnum > 0);
 
     LOG_DEBUG("[%d] ENTER SEARCH depth=%d alpha=%ld beta=%ld pvNode=%d fen=%s",
               info->_ply, depth, alpha, beta, static_cast<int>(PV_NODE), position.fen().c_str());
@@ -616,7 +619,7 @@ Value Search::search(Position& position, Depth depth, Value alpha, Value beta,
 
                     tt::TTEntry entry(result, depth, tt::Flag::kLOWER_BOUND,
                                       move);
-                    _ttable.insert(position.hash(), entry);
+                    if (storeInTT) _ttable.insert(position.hash(), entry);
 
 #if LOG_LEVEL > 1
                     {
@@ -653,7 +656,7 @@ Value Search::search(Position& position, Depth depth, Value alpha, Value beta,
     {
         tt::Flag flag = PV_NODE ? tt::Flag::kEXACT : tt::Flag::kUPPER_BOUND;
         tt::TTEntry entry(bestValue, depth, flag, best_move);
-        _ttable.insert(position.hash(), entry);
+        if (storeInTT) _ttable.insert(position.hash(), entry);
 
         LOG_DEBUG("[%d] BEST MOVE %s", info->_ply,
                   position.uci(best_move).c_str());
